@@ -388,7 +388,8 @@ where
                 }
             }};
         }
-        return match shape % 4 {
+        return match shape % 5 {
+            4 => tw!([u64; 0], u32, [], seed as u32),
             0 => tw!(u64, u32, seed, seed as u32),
             1 => tw!([u8; 16], u8, [seed as u8; 16], 3u8),
             2 => tw!([u32; 3], [u32; 40], [seed as u32; 3], [7u32; 40]),
